@@ -49,6 +49,20 @@ class Env:
         L.fn["FreeCompoundData"](cd)
         return r, err
 
+    def parse_noslot(self, s):
+        """the same call without an error slot: -> composition dict or None"""
+        L = self.L
+        b = s if isinstance(s, bytes) else s.encode("latin-1")
+        cd = L.fn["CompoundParser"](b, None)
+        if not cd:
+            return None
+        c = cd.contents
+        n = c.nElements
+        r = dict(elements=[c.Elements[i] for i in range(n)], nAtoms=[c.nAtoms[i] for i in range(n)], nAtomsAll=c.nAtomsAll,
+                 molarMass=c.molarMass, massFractions=[c.massFractions[i] for i in range(n)])
+        L.fn["FreeCompoundData"](cd)
+        return r
+
     def locale_changed(self):
         now = get_locale()
         if now != self.locale0:
@@ -215,6 +229,9 @@ def judge_string(st, env, b, origin):
         return ("locale-not-restored", case, [x.decode() for x in env.locale0], [x.decode() if x else None for x in loc])
     if (res is None) != (err is not None):
         return ("error-iff-null", case, "NULL <=> error", dict(result=res, error=err))
+    res2 = env.parse_noslot(b)
+    if repr(res2) != repr(res):      # repr: NaN-safe, bit-exact for floats
+        return ("noslot-differs", case, res, res2)
     if verdict == "accept":
         st.cls("must_accept")
         if res is None:
